@@ -2,6 +2,7 @@ package main
 
 import (
 	"fmt"
+	"go/ast"
 	"go/constant"
 	"go/token"
 	"go/types"
@@ -548,6 +549,9 @@ func (d *Describer) desc1(v ssa.Value, depth int) string {
 	r := func(x ssa.Value) string { return d.desc(x, depth+1) }
 	switch v := v.(type) {
 	case *ssa.Parameter:
+		if a := onTheSpotArg(v); a != nil {
+			return "^" + r(a) // a literal called where it is written: the parameter is the argument, like a capture
+		}
 		return fmt.Sprintf("p%d", paramIndex(v))
 	case *ssa.FreeVar:
 		fn := v.Parent()
@@ -599,6 +603,9 @@ func (d *Describer) desc1(v ssa.Value, depth int) string {
 		st := v.X.Type().Underlying().(*types.Pointer).Elem().Underlying().(*types.Struct)
 		return "&(" + selBase(r(v.X)) + "." + st.Field(v.Field).Name() + ")"
 	case *ssa.Field:
+		if iv := d.roGlobalLoadedField(v); iv != nil {
+			return r(iv)
+		}
 		st := v.X.Type().Underlying().(*types.Struct)
 		base := selBase(r(v.X))
 		if strings.HasPrefix(base, "*new:") && !strings.ContainsAny(base[1:], "*&( ") {
@@ -630,6 +637,11 @@ func (d *Describer) desc1(v ssa.Value, depth int) string {
 				if sv := uniqueStore(a); sv != nil {
 					return r(sv)
 				}
+			}
+			// a field of an unexported package-level struct variable that is only ever initialised
+			// (never stored to, never address-taken outside its initialiser) reads as its initial value
+			if iv := d.roGlobalField(v.X); iv != nil {
+				return r(iv)
 			}
 			// a read of a struct local that only holds copies: the value (or the other
 			// local) whose copy reaches this read (flow-sensitive; see chaseCopies)
@@ -872,4 +884,251 @@ func (d *Describer) callDesc(c *ssa.CallCommon, depth int) string {
 		args = append(args, d.desc(a, depth+1))
 	}
 	return name + "(" + strings.Join(args, ", ") + ")"
+}
+
+// ---- read-only package-level struct variables ------------------------------------------------
+
+type roGlobal struct {
+	ok     bool
+	stores map[string]ssa.Value // field path ("0.2") → the one value stored by the initialiser
+}
+
+var roGlobals = map[*ssa.Global]*roGlobal{}
+
+func globalFieldPath(addr ssa.Value) (*ssa.Global, string) {
+	path := ""
+	for {
+		switch a := addr.(type) {
+		case *ssa.FieldAddr:
+			path = fmt.Sprintf(".%d", a.Field) + path
+			addr = a.X
+			continue
+		case *ssa.Global:
+			return a, path
+		}
+		return nil, ""
+	}
+}
+
+// roGlobalField: addr is &g.f… of an unexported global that the module only initialises; the value its
+// initialiser stores there (nil when unknown).
+func (d *Describer) roGlobalField(addr ssa.Value) ssa.Value {
+	g, path := globalFieldPath(addr)
+	if g == nil || path == "" || g.Pkg == nil || ast.IsExported(g.Name()) || d.p == nil {
+		return nil
+	}
+	rg, seen := roGlobals[g]
+	if !seen {
+		rg = &roGlobal{ok: true, stores: map[string]ssa.Value{}}
+		roGlobals[g] = rg
+		initFn := g.Pkg.Func("init")
+		// every use of g anywhere in its package: field addresses that are only loaded from, or whole loads
+		var okAddr func(v ssa.Value, inInit bool) bool
+		okAddr = func(v ssa.Value, inInit bool) bool {
+			refs := v.Referrers()
+			if refs == nil {
+				return true
+			}
+			for _, in := range *refs {
+				switch x := in.(type) {
+				case *ssa.FieldAddr:
+					if !okAddr(x, inInit) {
+						return false
+					}
+				case *ssa.UnOp:
+					if x.Op != token.MUL {
+						return false
+					}
+				case *ssa.DebugRef:
+				case *ssa.Store:
+					if x.Addr != v || !inInit {
+						return false
+					}
+					if _, p := globalFieldPath(x.Addr); p != "" {
+						if _, dup := rg.stores[p]; dup {
+							return false
+						}
+						rg.stores[p] = x.Val
+					} else {
+						return false // a whole-value store: not field by field
+					}
+				default:
+					return false
+				}
+			}
+			return true
+		}
+		fns := append([]*ssa.Function{}, d.p.ModFuncs...)
+		if initFn != nil {
+			fns = append(fns, initFn)
+		} else {
+			rg.ok = false
+		}
+		for _, fn := range fns {
+			if fn.Pkg != g.Pkg || !rg.ok {
+				continue
+			}
+			eachInstr(fn, func(in ssa.Instruction) {
+				for _, op := range in.Operands(nil) {
+					if *op != ssa.Value(g) {
+						continue
+					}
+					switch x := in.(type) {
+					case *ssa.FieldAddr:
+						if !okAddr(x, fn == initFn) {
+							rg.ok = false
+						}
+					case *ssa.UnOp:
+						if x.Op != token.MUL {
+							rg.ok = false
+						}
+					case *ssa.DebugRef:
+					case *ssa.Store:
+						// the initialiser stores a composite literal built in a local, field by field
+						ld, isLoad := x.Val.(*ssa.UnOp)
+						if fn != initFn || x.Addr != ssa.Value(g) || !isLoad || ld.Op != token.MUL || len(rg.stores) > 0 {
+							rg.ok = false
+							break
+						}
+						lit, isAlloc := ld.X.(*ssa.Alloc)
+						if !isAlloc || lit.Comment != "complit" {
+							rg.ok = false
+							break
+						}
+						var walk func(v ssa.Value, path string) bool
+						walk = func(v ssa.Value, path string) bool {
+							for _, in := range *v.Referrers() {
+								switch y := in.(type) {
+								case *ssa.FieldAddr:
+									if !walk(y, path+fmt.Sprintf(".%d", y.Field)) {
+										return false
+									}
+								case *ssa.Store:
+									if y.Addr != v || path == "" {
+										return false
+									}
+									if _, dup := rg.stores[path]; dup {
+										return false
+									}
+									rg.stores[path] = y.Val
+								case *ssa.UnOp:
+									if y != ld {
+										return false
+									}
+								case *ssa.DebugRef:
+								default:
+									return false
+								}
+							}
+							return true
+						}
+						if !walk(lit, "") {
+							rg.ok = false
+						}
+					default:
+						rg.ok = false
+					}
+				}
+			})
+		}
+	}
+	if !rg.ok {
+		return nil
+	}
+	return rg.stores[path]
+}
+
+// roGlobalLoadedField: (*g).f… — a field of the loaded value of such a variable.
+func (d *Describer) roGlobalLoadedField(f *ssa.Field) ssa.Value {
+	path := ""
+	var v ssa.Value = f
+	for {
+		if x, ok := v.(*ssa.Field); ok {
+			path = fmt.Sprintf(".%d", x.Field) + path
+			v = x.X
+			continue
+		}
+		break
+	}
+	ld, ok := v.(*ssa.UnOp)
+	if !ok || ld.Op != token.MUL {
+		return nil
+	}
+	g, ok := ld.X.(*ssa.Global)
+	if !ok {
+		return nil
+	}
+	// reuse the address form: build the answer from the cache
+	if d.roGlobalField(&ssa.FieldAddr{X: g}) == nil {
+		// (the call above only fills the cache; a synthetic address has no path entry)
+	}
+	if rg := roGlobals[g]; rg != nil && rg.ok {
+		return rg.stores[path]
+	}
+	return nil
+}
+
+// onTheSpotArg: v is a parameter of a function literal whose only use is to be called, by a plain call, in the
+// function that contains it; the argument bound to v (nil otherwise).
+func onTheSpotArg(v *ssa.Parameter) ssa.Value {
+	fn := v.Parent()
+	par := fn.Parent()
+	if par == nil {
+		return nil
+	}
+	idx := -1
+	for i, p := range fn.Params {
+		if p == v {
+			idx = i
+		}
+	}
+	if idx < 0 {
+		return nil
+	}
+	var call *ssa.Call
+	uses := 0
+	for _, b := range par.Blocks {
+		for _, in := range b.Instrs {
+			for _, op := range in.Operands(nil) {
+				if *op == nil {
+					continue
+				}
+				isFn := *op == ssa.Value(fn)
+				if mc, ok := (*op).(*ssa.MakeClosure); ok && mc.Fn == ssa.Value(fn) {
+					if _, self := in.(*ssa.MakeClosure); !self {
+						isFn = true
+					}
+				}
+				if !isFn {
+					continue
+				}
+				if _, isMC := in.(*ssa.MakeClosure); isMC {
+					continue // the closure creation itself
+				}
+				uses++
+				if c, ok := in.(*ssa.Call); ok && (c.Call.Value == *op) {
+					call = c
+				}
+			}
+		}
+	}
+	if uses != 1 || call == nil || idx >= len(call.Call.Args) {
+		return nil
+	}
+	// the literal must not be referenced from sibling closures either
+	for _, af := range par.AnonFuncs {
+		if af == fn {
+			continue
+		}
+		for _, b := range af.Blocks {
+			for _, in := range b.Instrs {
+				for _, op := range in.Operands(nil) {
+					if *op != nil && *op == ssa.Value(fn) {
+						return nil
+					}
+				}
+			}
+		}
+	}
+	return call.Call.Args[idx]
 }
